@@ -162,6 +162,9 @@ func genScenario(r *zsimrt.Rand, run, seed uint64, cold bool, c *corpus) *Scenar
 		opsBias = 5
 	}
 	faultPerm := []int{0, 0, 50, 200}[r.Intn(4)]
+	if !zsimrt.Instrumented {
+		faultPerm = 0 // degraded mode: no callback faults
+	}
 	for t := 0; t < nTasks; t++ {
 		nOps := 1 + r.Intn(6)
 		if focusExpr {
